@@ -562,7 +562,15 @@ func TestTimeAndDurationGrid(t *testing.T) {
 		for _, di := range []bool{false, true} {
 			set := lp.DefaultSettings()
 			set.DurUnit, set.DurInt = u, di
-			for _, d := range []int64{0, 1, -1, u - 1, u, u + 1, -u, -u - 1, 3 * u / 2, 5, 1500000, 1000000007, math.MaxInt64, math.MinInt64, math.MinInt64 + 1, 123456789012345} {
+			ds := []int64{0, 1, -1, u - 1, u, u + 1, -u, -u - 1, 3 * u / 2, 5, 1500000, 1000000007, math.MaxInt64, math.MinInt64, math.MinInt64 + 1, 123456789012345, 1140000000, 68400000000, 4104000000000}
+			// 60 arbitrary values of growing magnitude (a fixed multiplicative sequence): how a quotient
+			// rounds depends on all the digits, so a handful of round numbers says little
+			x := uint64(0x9E3779B97F4A7C15)
+			for k := 0; k < 60; k++ {
+				x = x*6364136223846793005 + 1442695040888963407
+				ds = append(ds, int64(x>>(63-uint(k)))*(1-2*int64(k%2)))
+			}
+			for _, d := range ds {
 				v := lp.Val{T: "dur", I: d}
 				recVal(set, v, "dur-grid")
 				if p, msg := checkEntryPoints(set, v); msg != "" {
@@ -579,7 +587,7 @@ func TestTimeAndDurationGrid(t *testing.T) {
 			}
 		}
 	}
-	rec.Exhaustive("grid: 10 time formats x 14 seconds x 8 nanoseconds x 5 zones; 7 units x 2 integer flags x 16 durations")
+	rec.Exhaustive("grid: 10 time formats x 14 seconds x 8 nanoseconds x 5 zones; 7 units x 2 integer flags x 79 durations")
 }
 
 // ---------------------------------------------------------------- random
